@@ -659,6 +659,7 @@ func (w *world) proj(obs replay.Obs) {
 		obs["__note__"] = fmt.Sprintf("registry holds %d entries, %d known to the driver", len(liveIDs), known)
 	}
 	obs["live"] = live
+	obs["locked"] = w.lockedSlots()
 	inh := make([][]int, w.nsess)
 	waiters := make([][]int, w.nsess)
 	for s := 1; s <= w.nsess; s++ {
@@ -1210,20 +1211,7 @@ func (s *stepper) Step(i int, st replay.Step) (replay.Obs, error) {
 		terminal = true
 
 	case "Quiesce":
-		locked := []int{}
-		for _, wk := range w.workers {
-			for _, id := range vgirpc.VerifStickyLocked(wk.h) {
-				s := -1
-				for slot, sid := range w.sidOf {
-					if sid == id {
-						s = slot
-					}
-				}
-				locked = append(locked, s)
-			}
-		}
-		sort.Ints(locked)
-		obs["locked"] = locked
+		obs["rest"] = true
 		terminal = true
 
 	default:
@@ -1242,6 +1230,24 @@ func (s *stepper) Step(i int, st replay.Step) (replay.Obs, error) {
 		obs["__skip__"] = true
 	}
 	return obs, nil
+}
+
+// lockedSlots probes the per-session lock of every live entry (TryLock): the slots that are held.
+func (w *world) lockedSlots() []int {
+	locked := []int{}
+	for _, wk := range w.workers {
+		for _, id := range vgirpc.VerifStickyLocked(wk.h) {
+			s := -1
+			for slot, sid := range w.sidOf {
+				if sid == id {
+					s = slot
+				}
+			}
+			locked = append(locked, s)
+		}
+	}
+	sort.Ints(locked)
+	return locked
 }
 
 // slotOfTokenAfter: which slot's token the response carried (0 none).
